@@ -292,6 +292,14 @@ _ASCII_PRED = {
     "is_ascii_control": lambda c: c <= 31 or c == 127,
     "is_ascii": lambda c: c <= 127,
 }
+_U8_BITCOUNT = {
+    "count_ones": lambda c: bin(c).count("1"),
+    "count_zeros": lambda c: 8 - bin(c).count("1"),
+    "leading_zeros": lambda c: 8 - c.bit_length(),
+    "leading_ones": lambda c: 8 - (~c & 0xFF).bit_length(),
+    "trailing_zeros": lambda c: 8 if c == 0 else (c & -c).bit_length() - 1,
+    "trailing_ones": lambda c: ((~c & 0xFF) & -(~c & 0xFF)).bit_length() - 1 if c != 0xFF else 8,
+}
 _INT_BITS = {"u8": 8, "u16": 16, "u32": 32, "u64": 64, "usize": 64, "i8": 8, "i16": 16, "i32": 32, "i64": 64, "isize": 64, "u128": 128, "i128": 128}
 _TRANSPARENT_CTORS = ("Box::new", "Arc::new", "Rc::new", "std::sync::Arc::new", "std::rc::Rc::new")
 
@@ -641,6 +649,9 @@ class Interp:
         if ty in _INT_BITS:
             c = self.as_code(v) if not isinstance(v, bool) else int(v)
             c &= (1 << _INT_BITS[ty]) - 1
+            if ty.startswith("i") and c >> (_INT_BITS[ty] - 1):
+                # two's complement: `b as i8` of a byte >= 0x80 is negative (e.g. the `(b as i8) < -64` continuation-byte idiom)
+                c -= 1 << _INT_BITS[ty]
             return U8(c) if ty == "u8" else c
         if ty == "char":
             return Char(self.as_code(v))
@@ -1098,6 +1109,11 @@ class Interp:
                 return self.display(recv)
             if m in ("clone", "into", "to_owned"):
                 return recv
+            if isinstance(recv, U8) and not args and m in _U8_BITCOUNT:
+                return _U8_BITCOUNT[m](c)
+            if isinstance(recv, U8) and len(args) == 1 and m in ("wrapping_add", "wrapping_sub") and not isinstance(args[0], (bool, Char, Sym)) \
+                    and isinstance(args[0], int):
+                return U8((c + int(args[0]) if m == "wrapping_add" else c - int(args[0])) & 0xFF)
             raise Unfoldable("method %s on %s" % (m, value_text(recv)))
         if isinstance(recv, str):
             if m in ("to_string", "to_owned", "as_str", "clone", "into", "as_ref"):
@@ -2041,6 +2057,9 @@ class _Extraction:
                 g = Grammar(name, "parsed", inst.name, None, site, problem=str(ex), wiring=self.wiring)
             except RecursionError:
                 g = Grammar(name, "parsed", inst.name, None, site, problem="recursion limit", wiring=self.wiring)
+            except (KeyError, IndexError, TypeError, AttributeError, ValueError, OverflowError) as ex:
+                # a construct the evaluator mishandles must surface as "not folded" (callers anchor), never as a crash of the check
+                g = Grammar(name, "parsed", inst.name, None, site, problem="construct not understood (%s: %s)" % (type(ex).__name__, ex), wiring=self.wiring)
         self.grammars[name] = g
         return g
 
@@ -2077,6 +2096,9 @@ class _Extraction:
                 v = it.static_value(*st)
             except Unfoldable as ex:
                 self.problems.append("static %s: %s" % (st[1], ex))
+                continue
+            except (KeyError, IndexError, TypeError, AttributeError, ValueError, OverflowError, RecursionError) as ex:
+                self.problems.append("static %s: construct not understood (%s: %s)" % (st[1], type(ex).__name__, ex))
                 continue
             try:
                 inner = v.fields["inner"] if isinstance(v, StructVal) and "inner" in v.fields else v
@@ -2130,6 +2152,9 @@ class _Extraction:
                     self.grammars[name] = Grammar(name, "helper", None, v.rx, "%s:%d" % (f, item.get("line", 0)), wiring=self.wiring)
             except Unfoldable as ex:
                 self.grammars[name] = Grammar(name, "helper", None, None, "%s:%d" % (f, item.get("line", 0)), problem=str(ex), wiring=self.wiring)
+            except (KeyError, IndexError, TypeError, AttributeError, ValueError, OverflowError, RecursionError) as ex:
+                self.grammars[name] = Grammar(name, "helper", None, None, "%s:%d" % (f, item.get("line", 0)),
+                                              problem="construct not understood (%s: %s)" % (type(ex).__name__, ex), wiring=self.wiring)
 
 
 _EXTRACT_CACHE = {}
